@@ -28,40 +28,40 @@ protected:
 
 void runAuth(const Scn &scn, Out &out)
 {
+    // tokens are processed in order on ONE middleware instance: `cred` registers (or replaces) a
+    // credential, `head` sends one request on a fresh connection
     QStringList *obs = &out.obs;
-    QByteArray realm, head;
-    QList<QPair<QByteArray, QByteArray>> creds;
+    QByteArray realm;
     foreach (const QString &t, scn.toks) {
         QStringList p = t.split(':');
-        if (p[0] == "cred") creds << qMakePair(unhx(p[1]), unhx(p[2]));
-        else if (p[0] == "realm") realm = unhx(p[1]);
-        else if (p[0] == "head") head = unhx(p[1]);
+        if (p[0] == "realm") realm = unhx(p[1]);
     }
-    QByteArray stream = head + "\r\n\r\n";
-    urlOracle(stream, out);
     BasicAuthMiddleware mw(QString::fromUtf8(realm));
-    for (auto &c : creds) mw.add(QString::fromUtf8(c.first), QString::fromUtf8(c.second));
     OkHandler handler(obs);
     handler.addMiddleware(&mw);
-
-    QPointer<SimTcp> tcp = new SimTcp;
-    tcp->log = obs;
-    *obs << "e:0";
-    QPointer<Socket> sock = new Socket(tcp);
-    bool routed = false;
-    QObject::connect(sock.data(), &Socket::headersParsed, [&]() {
-        routed = true;
-        int before = obs->size();
-        handler.route(sock, sock->path().mid(1));
-        // a refusal is visible as "no pr": record the verdict first, as the model does
-        if (!obs->mid(before).contains("pr:0:-")) obs->insert(before, "mw:0:0");
-    });
-    *obs << "e:1";
-    tcp->feed(stream);
-    *obs << "e:2";
-    eventTurn();
+    foreach (const QString &t, scn.toks) {
+        QStringList p = t.split(':');
+        if (p[0] == "cred") { mw.add(QString::fromUtf8(unhx(p[1])), QString::fromUtf8(unhx(p[2]))); continue; }
+        if (p[0] != "head") continue;
+        QByteArray stream = unhx(p[1]) + "\r\n\r\n";
+        urlOracle(stream, out);
+        QPointer<SimTcp> tcp = new SimTcp;
+        tcp->log = obs;
+        *obs << "e:0";
+        QPointer<Socket> sock = new Socket(tcp);
+        QObject::connect(sock.data(), &Socket::headersParsed, [&]() {
+            int before = obs->size();
+            handler.route(sock, sock->path().mid(1));
+            // a refusal is visible as "no pr": record the verdict first, as the model does
+            if (!obs->mid(before).contains("pr:0:-")) obs->insert(before, "mw:0:0");
+        });
+        *obs << "e:1";
+        tcp->feed(stream);
+        *obs << "e:2";
+        eventTurn();
+        if (tcp) tcp->log = nullptr;
+        if (sock) delete sock.data();
+        eventTurn();
+    }
     out.obs << "end";
-    if (tcp) tcp->log = nullptr;
-    if (sock) delete sock.data();
-    eventTurn();
 }
